@@ -10,6 +10,8 @@ import IcontractModel.Spec.Override
 import IcontractModel.Lemmas.MetaFrame
 import IcontractModel.Spec.ChainHistory
 import IcontractModel.Lemmas.ChainLemmas
+import IcontractModel.Spec.DagHistory
+import IcontractModel.Lemmas.DagLemmas
 namespace Icontract.Meta
 
 /-- **Collapse rule** (`_decorate_namespace_function`, inherited members): when the collapse is
@@ -138,6 +140,34 @@ example :
     (match buildChain "m" {} none 1 [⟨10, [1, 2], [7]⟩, ⟨11, [3], []⟩, ⟨12, [4], [8, 9]⟩] with
      | .ok w => (preOf w 12, postsOf w 12, preOf w 10)
      | .error _ => ([], [], [])) = ([[1, 2], [3], [4]], [7, 8, 9], [[1, 2]]) := by
+  decide
+
+/-! ### the general reading, for inheritance graphs of any shape -/
+
+/-- **Liskov combination along an arbitrary inheritance graph.**  Start from the empty world and define classes
+`1, 2, ...` one after the other, each with any earlier classes as bases (multiple inheritance, diamonds, gaps) and any
+ordinary members bound to fresh function objects with their own preconditions (one group) and postconditions.  If the
+history is accepted, then for EVERY member of EVERY class introspection shows exactly the declarative effective
+contracts: the precondition groups of `specPreAt` (no group at all when some ancestor accepts every call) and the
+postconditions of `specListAt` - for the final world, i.e. later definitions never changed an earlier class. -/
+theorem C04_dag_effective_contracts (ds : List ClassDef) (hwf : HistWf ds) (w : World)
+    (h : buildHist {} 1 ds = .ok w) :
+    ∀ i (hi : i < ds.length) (key : String) (l : ChainLevel), (key, l) ∈ (ds[i]).members →
+      preOf w l.f = ((specPreAt w (declsOf ds) (ds.length + 1) (i + 1) key 0).getD []) ∧
+      postsOf w l.f = specListAt w (declsOf ds).ownPosts (ds.length + 1) (i + 1) key 0 :=
+  buildHist_observe ds hwf w h
+
+/-- non-vacuity: a diamond with a gap, evaluated by the kernel -/
+example :
+    (match buildHist {} 1 [⟨[], [("m", ⟨10, [1], [7]⟩)]⟩, ⟨[1], [("m", ⟨12, [2], []⟩)]⟩, ⟨[1], []⟩,
+                           ⟨[2, 3], [("m", ⟨14, [3, 4], [5]⟩)]⟩] with
+     | .ok w => (preOf w 14, postsOf w 14, preOf w 10)
+     | .error _ => ([], [], [])) = ([[1], [2], [1], [3, 4]], [7, 7, 5], [[1]]) := by decide
+
+/-- ... and this history is well-formed, so the hypotheses of the theorem are satisfiable -/
+example : HistWf [⟨[], [("m", ⟨10, [1], [7]⟩)]⟩, ⟨[1], [("m", ⟨12, [2], []⟩)]⟩, ⟨[1], []⟩,
+                  ⟨[2, 3], [("m", ⟨14, [3, 4], [5]⟩)]⟩] := by
+  unfold HistWf
   decide
 
 end Icontract.Meta
